@@ -106,3 +106,55 @@ def swapped_positional(metric, mode):
 
 def straight(metric, mode):
     return make_rung(metric, mode, level=1)
+
+
+class Base:
+    def __init__(self, mode="min"):
+        self._mode = mode
+        self._flag = True
+
+    def hook(self, x):
+        self.seen = x
+
+    def uses(self):
+        return self._flag, self._mode, self.seen
+
+
+class Decider:
+    def __init__(self, count, mode="min"):
+        self.count = count
+        self.mode = mode
+
+
+class GoodChild(Base):
+    def __init__(self, mode, options=None, **kwargs):
+        super().__init__(mode)
+        opts = dict(options) if options is not None else dict()
+        opts["mode"] = mode
+        self.decider = Decider(3, mode=mode)
+        self.inner = Decider(**kwargs)
+
+    def hook(self, x):
+        super().hook(x)
+        self.extra = x
+
+    def read(self):
+        return self.extra, self.decider, self.inner
+
+
+class BadChild(Base):
+    def __init__(self, mode, unused, options=None, **kwargs):
+        super().__init__(mode)
+        options["mode"] = mode
+        self.flag = False
+        self.decider = Decider(3)
+        kwargs.pop("count")
+        self.inner = Decider(**kwargs)
+
+    def hook(self, x):
+        if x is None:
+            return
+        super().hook(x)
+
+    def read(self):
+        return self.decider, self.inner
